@@ -141,11 +141,15 @@ func pairSrc(p Pair) string {
 
 func attrSrc(a Attr) string {
 	q := func(n, v string) string { return n + `="` + v + `"` }
+	// literal text of static / interpolated / bracketed values: & and " are written as references
+	esc := func(v string) string {
+		return strings.ReplaceAll(strings.ReplaceAll(v, "&", "&amp;"), `"`, "&quot;")
+	}
 	switch a.Kind {
 	case "static":
-		return q(a.Name, a.Text)
+		return q(a.Name, esc(a.Text))
 	case "interp":
-		return q(a.Name, a.Text+"{{ "+a.Path+" }}"+a.Post)
+		return q(a.Name, esc(a.Text)+"{{ "+a.Path+" }}"+esc(a.Post))
 	case "bind":
 		return q(":"+a.Name, a.Text)
 	case "vbind":
@@ -172,9 +176,9 @@ func attrSrc(a Attr) string {
 		return q(a.Name, a.Text)
 	case "lit":
 		if a.Path != "" {
-			return q("["+a.Name+"]", a.Text+"{{ "+a.Path+" }}"+a.Post)
+			return q("["+a.Name+"]", esc(a.Text)+"{{ "+a.Path+" }}"+esc(a.Post))
 		}
-		return q("["+a.Name+"]", a.Text)
+		return q("["+a.Name+"]", esc(a.Text))
 	}
 	return ""
 }
@@ -330,10 +334,39 @@ type decl struct{ prop, val string }
 
 const malformed = "\x00malformed"
 
-// parseDecls reads a declaration list `a: b; c: d` (harmless values only in this package).
+// splitDecls cuts a declaration list at the semicolons that separate declarations: those
+// outside parentheses and outside quoted strings (CSS syntax: url(data:image/png;base64,AA)
+// and content: "a;b" are single values).
+func splitDecls(s string) []string {
+	var parts []string
+	depth, start := 0, 0
+	var quote rune
+	for i, r := range s {
+		switch {
+		case quote != 0:
+			if r == quote {
+				quote = 0
+			}
+		case r == '\'' || r == '"':
+			quote = r
+		case r == '(':
+			depth++
+		case r == ')':
+			if depth > 0 {
+				depth--
+			}
+		case r == ';' && depth == 0:
+			parts = append(parts, s[start:i])
+			start = i + 1
+		}
+	}
+	return append(parts, s[start:])
+}
+
+// parseDecls reads a declaration list `a: b; c: d`.
 func parseDecls(s string) []decl {
 	var out []decl
-	for _, part := range strings.Split(s, ";") {
+	for _, part := range splitDecls(s) {
 		part = strings.TrimSpace(part)
 		if part == "" {
 			continue
@@ -347,6 +380,13 @@ func parseDecls(s string) []decl {
 	}
 	return out
 }
+
+// innerSemicolon reports a ';' inside parentheses or quotes (the region of the repaired finding
+// C14-style-semicolon-in-value-cut).
+func innerSemicolon(s string) bool { return strings.Count(s, ";") > len(splitDecls(s))-1 }
+
+// separatorInValue reports a ';' that would end the declaration when s is used as one value.
+func separatorInValue(s string) bool { return len(splitDecls(s)) > 1 }
 
 // expect is what the statement promises for one rendered instance of the element.
 type expect struct {
@@ -365,6 +405,8 @@ type expect struct {
 	style     map[string]string // property -> value
 	propFree  map[string]bool   // properties not asserted
 	display   string            // "none" | "shown" | "free" (truthiness unspecified) | "" (no v-show)
+	keptSeq   []string          // static properties no bound declaration touches, in source order
+	addedSeq  []string          // bound properties no static declaration has, in binding order
 
 	order []string // untouched static attribute names in source order
 }
@@ -413,6 +455,9 @@ func (c Case) model(k int) *expect {
 		}
 	}
 	showAttr := c.has("show", "")
+	boundSet := map[string]bool{} // style properties some bound declaration names
+	var boundSeq []string         // asserted bound style properties in binding order
+	staticStyle, hasStaticStyle := "", false
 
 	for _, a := range c.Attrs {
 		switch a.Kind {
@@ -426,11 +471,7 @@ func (c Case) model(k int) *expect {
 				}
 			case a.Name == "style":
 				e.styleAny = true
-				for _, d := range parseDecls(a.Text) {
-					if _, over := e.style[d.prop]; !over { // bound entries are filled in below and win
-						e.style[d.prop] = d.val
-					}
-				}
+				staticStyle, hasStaticStyle = a.Text, true // applied below, once the bound declarations are known
 				if !bound["style"] && !showAttr {
 					e.order = append(e.order, a.Name)
 				}
@@ -482,6 +523,8 @@ func (c Case) model(k int) *expect {
 					}
 					for _, d := range ds {
 						e.style[d.prop] = d.val
+						boundSet[d.prop] = true
+						boundSeq = append(boundSeq, d.prop)
 					}
 				case truthy:
 					// a non-string value bound to style: what it contributes is not specified
@@ -514,14 +557,17 @@ func (c Case) model(k int) *expect {
 				case "style":
 					e.styleAny = true
 					pr := kebab(p.Key)
+					boundSet[pr] = true
 					switch {
-					case v.K == "string" && strings.ContainsAny(v.S, ";:'\""):
-						// CSS syntax inside a value (declaration injection) is not this property's subject
+					case v.K == "string" && separatorInValue(v.S):
+						// a value that ends its own declaration (injection) is not this property's subject;
+						// a ';' inside parentheses or quotes is part of the value
 						e.styleFree = true
 					case v.K == "string" && v.S != "" && v.S == strings.TrimSpace(v.S), isNumeric(v.K):
 						s, _ := strForm(v)
-						e.style[pr] = s // "Values are applied as-is"
+						e.style[pr] = s // "Values are applied as-is": colons, quotes, commas, parentheses, !important included
 						delete(e.propFree, pr)
+						boundSeq = append(boundSeq, pr)
 					default:
 						// empty, nil, boolean and container values in a style object: unspecified
 						delete(e.style, pr)
@@ -564,6 +610,34 @@ func (c Case) model(k int) *expect {
 				continue
 			}
 			e.must[a.Name] = acc
+		}
+	}
+	if hasStaticStyle {
+		staticSet := map[string]bool{}
+		for _, d := range parseDecls(staticStyle) {
+			if !staticSet[d.prop] && !boundSet[d.prop] {
+				e.keptSeq = append(e.keptSeq, d.prop)
+			}
+			staticSet[d.prop] = true
+			if boundSet[d.prop] {
+				continue // bound declarations win wherever they stand in the source
+			}
+			e.style[d.prop] = d.val // a repeated static property: the last one counts
+		}
+		seen := map[string]bool{}
+		for _, p := range boundSeq {
+			if !staticSet[p] && !seen[p] {
+				e.addedSeq = append(e.addedSeq, p)
+			}
+			seen[p] = true
+		}
+	} else {
+		seen := map[string]bool{}
+		for _, p := range boundSeq {
+			if !seen[p] {
+				e.addedSeq = append(e.addedSeq, p)
+			}
+			seen[p] = true
 		}
 	}
 	switch e.display {
@@ -801,6 +875,28 @@ func compare(e *expect, got map[string]string, order []string) string {
 			for _, p := range gp {
 				if _, ok := e.style[p]; !ok && !e.propFree[p] {
 					return fmt.Sprintf("style=%q: unexpected declaration %s:%s", got["style"], p, gm[p])
+				}
+			}
+			// declaration order: the kept static declarations among themselves and the added
+			// bound declarations among themselves (shorthand / longhand pairs depend on it);
+			// where an overridden property or display:none stands is not asserted
+			dpos := map[string]int{}
+			for i, d := range parseDecls(got["style"]) {
+				if _, dup := dpos[d.prop]; !dup {
+					dpos[d.prop] = i
+				}
+			}
+			for _, seq := range [][]string{e.keptSeq, e.addedSeq} {
+				last, lastProp := -1, ""
+				for _, p := range seq {
+					i, ok := dpos[p]
+					if !ok || p == "display" {
+						continue
+					}
+					if i < last {
+						return fmt.Sprintf("style=%q: declaration %q moved in front of %q (expected relative order %v)", got["style"], p, lastProp, seq)
+					}
+					last, lastProp = i, p
 				}
 			}
 		}
